@@ -325,6 +325,30 @@ theorem newH_points_away_three (c s : α) (tet : List (V3 α)) (a : V3 α) (L κ
 
 end away
 
+
+/-! ## "at finite coordinates": the normalisations of the repaired routine are defined -/
+
+/-- D32: the as-shipped normal `cross(vec, ẑ)` is the zero vector exactly when the direction lies along
+ẑ (normalising it gives NaN); the repaired choice (`cross(vec, x̂)` in that case) is non-zero for every
+non-zero direction and orthogonal to it, over any commutative ring. -/
+theorem two_hydrogen_normal_defined {α : Type} [CommRing α] [DecidableEq α] (vec : V3 α) :
+    (cross vec ⟨0, 0, 1⟩ = ⟨0, 0, 0⟩ ↔ vec.x = 0 ∧ vec.y = 0) ∧
+    (vec ≠ ⟨0, 0, 0⟩ → fallbackNormal vec ≠ ⟨0, 0, 0⟩) ∧ (fallbackNormal vec).dot vec = 0 :=
+  ⟨cross_z_eq_zero_iff vec, fallbackNormal_ne_zero vec, fallbackNormal_orth vec⟩
+
+/-- the rotation `rotation_matrix_from_vectors(TETRAHEDRON[0] = ẑ, v)` of the three/four-hydrogen branch
+(regular case `1 + v·ẑ ≠ 0`, `k = 1/(1 + v·ẑ)`) meets the hypotheses of `newH_distance_tet` and
+`newH_points_away_three`: its rows are orthonormal and its third row is `v`. -/
+theorem tetrahedron_rotation_ok {α : Type} [CommRing α] (v : V3 α) (k : α) (hv : v.norm2 = 1)
+    (hk : k * (1 + v.z) = 1) : Orth (rotZk v k) ∧ (rotZk v k).r3 = v :=
+  ⟨rotZk_orth v k hv hk, rotZk_r3 v k hv hk⟩
+
+/-- D31: an atom without neighbours gets the default direction ẑ, which is a unit vector; with it
+`rotZk ẑ (1/2)` is the identity, so the hydrogens sit on the tetrahedron vertices themselves. -/
+theorem default_direction_ok : (⟨0, 0, 1⟩ : V3 Rat).norm2 = 1 ∧
+    rotZk (⟨0, 0, 1⟩ : V3 Rat) (1 / 2) = ⟨⟨1, 0, 0⟩, ⟨0, 1, 0⟩, ⟨0, 0, 1⟩⟩ := by
+  constructor <;> decide +kernel
+
 /-! ## the generated tables meet the hypotheses; concrete instances (non-vacuity) -/
 
 open Molli.Gen.Valence in
